@@ -118,6 +118,17 @@ func (_this *Session) GetBuilderGeneratorForType(dstType reflect.Type) BuilderGe
 		return storedBuilderGenerator.(BuilderGenerator)
 	}
 
+	defer func() {
+		if r := recover(); r != nil {
+			// Generation failed (unsupported type): don't leave the placeholder
+			// behind, or everyone who picked it up would wait forever.
+			builderGenerator = func(*Context) Builder { panic(r) }
+			_this.builderGenerators.Delete(dstType)
+			wg.Done()
+			panic(r)
+		}
+	}()
+
 	verifhook.Point("builder.cache.miss")
 	builderGenerator = _this.defaultBuilderGeneratorForType(dstType)
 	verifhook.Point("builder.cache.generated")
